@@ -32,8 +32,12 @@ pub fn header_fields(frame: &[u8]) -> Vec<Field> {
         }
         ET_IP4 if frame.len() >= 34 => {
             v.push(f(14, 1, "ip4.ver_ihl"));
+            v.push(f(15, 1, "ip4.tos"));
             v.push(f(16, 2, "ip4.total_length"));
+            v.push(f(18, 2, "ip4.id"));
             v.push(f(20, 2, "ip4.flags_frag"));
+            v.push(f(22, 1, "ip4.ttl"));
+            v.push(f(24, 2, "ip4.checksum"));
             let l4 = 34;
             match frame[23] {
                 P_TCP if frame.len() >= l4 + 20 => {
@@ -42,14 +46,24 @@ pub fn header_fields(frame: &[u8]) -> Vec<Field> {
                     v.push(f(l4 + 4, 4, "tcp.seq"));
                     v.push(f(l4 + 8, 4, "tcp.ack"));
                     v.push(f(l4 + 14, 2, "tcp.window"));
+                    v.push(f(l4 + 16, 2, "tcp.checksum"));
+                    v.push(f(l4 + 18, 2, "tcp.urgent"));
                 }
-                P_UDP if frame.len() >= l4 + 8 => v.push(f(l4 + 4, 2, "udp.length")),
+                P_UDP if frame.len() >= l4 + 8 => {
+                    v.push(f(l4 + 4, 2, "udp.length"));
+                    v.push(f(l4 + 6, 2, "udp.checksum"));
+                }
+                P_ICMP if frame.len() >= l4 + 4 => {
+                    v.push(f(l4 + 2, 2, "icmp.checksum"));
+                }
                 _ => {}
             }
         }
         ET_IP6 if frame.len() >= 54 => {
             v.push(f(14, 1, "ip6.ver"));
+            v.push(f(15, 3, "ip6.flow_label"));
             v.push(f(18, 2, "ip6.payload_length"));
+            v.push(f(21, 1, "ip6.hop_limit"));
             let l4 = 54;
             match frame[20] {
                 P_TCP if frame.len() >= l4 + 20 => {
@@ -58,8 +72,13 @@ pub fn header_fields(frame: &[u8]) -> Vec<Field> {
                     v.push(f(l4 + 4, 4, "tcp.seq"));
                     v.push(f(l4 + 8, 4, "tcp.ack"));
                     v.push(f(l4 + 14, 2, "tcp.window"));
+                    v.push(f(l4 + 16, 2, "tcp.checksum"));
+                    v.push(f(l4 + 18, 2, "tcp.urgent"));
                 }
-                P_UDP if frame.len() >= l4 + 8 => v.push(f(l4 + 4, 2, "udp.length")),
+                P_UDP if frame.len() >= l4 + 8 => {
+                    v.push(f(l4 + 4, 2, "udp.length"));
+                    v.push(f(l4 + 6, 2, "udp.checksum"));
+                }
                 P_ICMP6 if frame.len() >= l4 + 26 && frame[l4] == 135 => {
                     // ND option type/length bytes
                     let mut o = l4 + 24;
